@@ -481,10 +481,17 @@ func runC11(w *World) *Result {
 		}
 		return true
 	})
+	uniform := false
 	if rowObj == nil {
-		r.Bad("R-C11-pos", "pos:row-variable", w.Pos(loop.Pos()), "cannot identify the row counter (no increment under a NEWLINE test)")
+		// the other mechanism: one position function applied to the consumed text of every token
+		if uniform = uniformPosition(w, lf, r); !uniform {
+			r.Bad("R-C11-pos", "pos:row-variable", w.Pos(loop.Pos()), "cannot identify the row counter (no increment under a NEWLINE test, no position function applied to the consumed text)")
+		}
 	}
 	arms := probeArms(loop)
+	if uniform {
+		arms = nil // the arms do no bookkeeping of their own
+	}
 	r.Analysed["probe_arms"] = len(arms)
 	charTestAt := map[token.Pos]*CharTest{}
 	for _, t := range LexCharTests(w) {
